@@ -1,4 +1,5 @@
 use crate::{rng::Rng, Emit};
+pub mod c02;
 pub mod c05;
 pub mod c09;
 pub mod c15;
@@ -10,6 +11,7 @@ pub fn eval(op: &str, args: &[&str]) -> Option<String> {
     let prop = op.trim_start_matches("p.");
     let prop = prop.split('.').next().unwrap_or("");
     match prop {
+        "c02" => c02::eval(op, args),
         "c05" => c05::eval(op, args),
         "c09" => c09::eval(op, args),
         "c15" => c15::eval(op, args),
@@ -20,6 +22,7 @@ pub fn eval(op: &str, args: &[&str]) -> Option<String> {
 
 pub fn generate(prop: &str, thorough: bool, rng: &mut Rng, em: &mut Emit) {
     match prop {
+        "C02" => c02::generate(thorough, rng, em),
         "C05" => c05::generate(thorough, rng, em),
         "C09" => c09::generate(thorough, rng, em),
         "C15" => c15::generate(thorough, rng, em),
